@@ -1,4 +1,5 @@
 import HC.Proto.H11
+import HC.Proto.H11Close
 /-!
 # C06 — HTTP/1.x persistent-connection and pipelining safety
 
@@ -567,6 +568,170 @@ theorem error_response_announces_close (st : St) (status : Nat) (srv : Headers) 
     simp [this]
   simp [H11M.respAnnouncesClose, this]
 
+/-! ### "neither side asked to close" and "an aborted or malformed message", over whole runs
+
+`H11Close.step_closed`: one walk over the protocol model for predicates of (`request_complete`, h11 state) that every
+library call preserves; three instances. -/
+
+open HC.Proto.H11Close in
+/-- a `Closed` predicate that holds in `st` holds after every accepted run from `st` -/
+theorem closed_run {P : Bool → H11M.St → Prop} (hC : Closed P) (cfg : Cfg) (token : Bytes → Bytes) (ext : Option Bytes)
+    (ops : List Op) (st st' : St) (h0 : R P st) (h : runOps (next cfg token ext) st ops = some st') : R P st' := by
+  refine inv_runOps (next cfg token ext) (R P) (fun _ => True) ?_ ops st st' h0 (fun _ _ => trivial) h
+  intro s o s' _ hI hs
+  simp only [next, Option.map_eq_some_iff] at hs
+  obtain ⟨⟨s1, o1, e1⟩, hstep, rfl⟩ := hs
+  exact step_closed hC cfg token ext s s1 o o1 e1 hI hstep
+
+/-- what the model hard-codes about `self.request_complete` and about the application's response head is what the source
+    says now (extracted on every run): the flag is reset when a new `h11.Request` arrives, before its stream is created,
+    and set at `EndOfMessage`; `HTTPStream.app_send` hands the validated headers of `http.response.start` to the protocol
+    as they are (so h11 sees the application's own `connection: close`) -/
+theorem close_sites_guard : Extracted.Guards.h11RequestResetsComplete = true ∧ Extracted.Guards.h11EomSetsComplete = true ∧
+    Extracted.Guards.httpStartHeadersVerbatim = true := by decide
+
+/-- a new request starts incomplete: whatever the flag was (the previous request of a reused connection left it set) -/
+theorem request_resets_complete (cfg : Cfg) (st st' : St) (o0 outs : List Out) (r : ReqEv)
+    (h : onLibEvBody cfg st o0 (.request r) = some (st', outs)) : st'.requestComplete = false := by
+  have key : ∀ (s : St) (e : LibSend), (libSend s e).1.requestComplete = s.requestComplete := by
+    intro s e; unfold libSend; cases e <;> simp only [] <;> split <;> rfl
+  have hmr : ∀ s : St, (maybeRecycle s).1.requestComplete = s.requestComplete := by
+    intro s
+    have := (Proto.H11Close.closeStream_key s).1
+    unfold maybeRecycle; simp only []; (repeat' split) <;> simpa using this
+  have hhttp : ∀ (evs : List Http.Ev) (s : St), (runHttpEvs cfg s evs).1.requestComplete = s.requestComplete := by
+    intro evs
+    induction evs with
+    | nil => intro s; rfl
+    | cons e es ih =>
+      intro s
+      simp only [runHttpEvs]
+      have h1 : (httpStreamSend cfg s e).1.requestComplete = s.requestComplete := by
+        cases e <;> simp only [httpStreamSend] <;> (try rfl) <;> (try exact key _ _) <;> (try exact hmr _)
+        split <;> exact key _ _
+      split
+      · exact h1
+      · rw [ih, h1]
+  have hws : ∀ (evs : List Ws.Ev) (s : St), (runWsEvs cfg s evs).1.requestComplete = s.requestComplete := by
+    intro evs
+    induction evs with
+    | nil => intro s; rfl
+    | cons e es ih =>
+      intro s
+      simp only [runWsEvs]
+      have h1 : (wsStreamSend cfg s e).1.requestComplete = s.requestComplete := by
+        cases e <;> simp only [wsStreamSend] <;> (try rfl) <;> (try exact key _ _) <;> (try exact hmr _)
+        split <;> exact key _ _
+      split
+      · exact h1
+      · rw [ih, h1]
+  simp only [onLibEvBody] at h
+  split at h
+  · cases h
+  · split at h
+    · simp only [Option.some.injEq, Prod.mk.injEq] at h
+      obtain ⟨rfl, _⟩ := h
+      exact key _ _
+    · simp only [Option.some.injEq, Prod.mk.injEq] at h
+      obtain ⟨rfl, _⟩ := h
+      rfl
+    · split at h
+      · split at h
+        · cases h
+        · simp only [Option.some.injEq, Prod.mk.injEq] at h
+          obtain ⟨rfl, _⟩ := h
+          show (runWsEvs cfg _ _).1.requestComplete = false
+          rw [hws]; rfl
+      · simp only [Option.some.injEq, Prod.mk.injEq] at h
+        obtain ⟨rfl, _⟩ := h
+        show (_ : St × List Out × Bool).1.requestComplete = false
+        split
+        · rfl
+        · rw [hhttp]; rfl
+
+/-- **`request_complete` only ever refers to the request in progress**: in every reachable state, while h11 is still
+    reading a request body (`their_state is SEND_BODY`) the flag is down - also on a reused connection, also for a
+    pipelined request -/
+theorem complete_means_body_over (cfg : Cfg) (token : Bytes → Bytes) (ext : Option Bytes) (ops : List Op) (st : St)
+    (h : runOps (next cfg token ext) {} ops = some st) (hb : st.lib.client = .sendBody) : st.requestComplete = false := by
+  have hR := closed_run Proto.H11Close.closed_RC cfg token ext ops {} st (by intro hc; cases hc) h
+  cases hc : st.requestComplete
+  · rfl
+  · exact absurd hb (hR hc)
+
+/-- **a message that goes wrong inside its body is never ignored** (reused connection or not): for every reachable state
+    in which h11 is reading a request body, a RemoteProtocolError out of `next_event()` makes the protocol send `Closed`
+    and leave the read loop; when h11's writer is still IDLE / SEND_RESPONSE the hinted error response (which announces
+    close: `error_response_announces_close`) and its EndOfMessage go out first -/
+theorem malformed_body_closes (cfg : Cfg) (token : Bytes → Bytes) (ext : Option Bytes) (ops : List Op) (st : St) (hint : Nat)
+    (h : runOps (next cfg token ext) {} ops = some st) (hb : st.lib.client = .sendBody) (hpc : st.pc = .inLoop) (hsw : st.switched = false) :
+    ∃ st' outs, onLibEv cfg st (.protoError hint) = some (st', outs) ∧ Out.upClosed ∈ outs ∧ st'.pc = .idle ∧
+      (((H11M.recvError (loopTop cfg st).1.lib).server = .idle ∨ (H11M.recvError (loopTop cfg st).1.lib).server = .sendResponse) →
+        ∃ hs ok, Out.libSend (.response hint ([("content-length".b, "0".b), ("connection".b, "close".b)] ++ hs)) ok ∈ outs) := by
+  have hrc := complete_means_body_over cfg token ext ops st h hb
+  have hlt : (loopTop cfg st).1.requestComplete = false := by
+    unfold loopTop; split
+    · have key : ∀ (s : St) (e : LibSend), (libSend s e).1.requestComplete = s.requestComplete := by
+        intro s e; unfold libSend; cases e <;> simp only [] <;> split <;> rfl
+      rw [key]; exact hrc
+    · exact hrc
+  unfold onLibEv
+  have hc : (st.pc != .inLoop || st.switched) = false := by simp [hpc, hsw]
+  rw [if_neg (by simp [hc])]
+  simp only [onLibEvBody, hlt, Bool.and_false]
+  refine ⟨_, _, rfl, by simp, rfl, ?_⟩
+  intro hst
+  have hcond : ((H11M.recvError (loopTop cfg st).1.lib).server == .idle || (H11M.recvError (loopTop cfg st).1.lib).server == .sendResponse) = true := by
+    rcases hst with h1 | h1 <;> simp [h1]
+  simp only [hcond, if_true]
+  refine ⟨cfg.serverHeaders, ?_⟩
+  unfold libSend
+  simp only []
+  split
+  · exact ⟨true, by simp⟩
+  · exact ⟨false, by simp⟩
+
+/-- the response head the protocol hands to h11 for an application's `http.response.start` carries the application's
+    headers first and unchanged (status 200 and up) -/
+theorem app_headers_reach_h11 (cfg : Cfg) (st : St) (status : Nat) (app : Headers) (hs : 200 ≤ status) :
+    ∃ rest, Proto.Heads.h11Response status app cfg.serverHeaders st.keepAliveRequests cfg.keepAliveMax = Proto.Heads.H11Head.final status (app ++ rest) := by
+  have hfin : Extracted.Guards.h11FinalStatusCmp.eval status 200 = true := by
+    simp [Extracted.Guards.h11FinalStatusCmp, Extracted.Guards.Cmp.eval, hs]
+  unfold Proto.Heads.h11Response
+  rw [if_pos hfin]
+  exact ⟨_, by rw [List.append_assoc]⟩
+
+/-- **either side asking to close ends the connection's reuse for good**: once a response head with `connection: close`
+    (the application's own header, the server's at the request maximum or on an error response) was accepted by h11 - or
+    the client asked (`Connection: close`, HTTP/1.0), i.e. h11's keep-alive flag is off in `st` - then after ANY further
+    ops the end of the current stream does not recycle the connection: no `start_next_cycle`, `Closed` is sent -/
+theorem asked_to_close_never_reused (cfg : Cfg) (token : Bytes → Bytes) (ext : Option Bytes) (ops ops' : List Op) (st st' : St)
+    (h : runOps (next cfg token ext) {} ops = some st) (hoff : st.lib.keepAlive = false)
+    (h' : runOps (next cfg token ext) st ops' = some st') :
+    Out.startNextCycle true ∉ (maybeRecycle st').2 ∧ Out.upClosed ∈ (maybeRecycle st').2 := by
+  have hoff' : st'.lib.keepAlive = false := closed_run Proto.H11Close.closed_off cfg token ext ops' st st' hoff h'
+  have hka : Proto.H11Close.KA st'.lib :=
+    closed_run Proto.H11Close.closed_KA cfg token ext (ops ++ ops') {} st' (by intro hk; cases hk)
+      (by rw [runOps_append, h]; exact h')
+  have hnd : st'.lib.server ≠ .done := hka hoff'
+  have hr := reuse_iff st'
+  constructor
+  · intro hm; exact hnd (hr.1.mp hm).2.2.1
+  · exact hr.2.mpr (fun hc => hnd hc.2.2.1)
+
+/-- the application's `connection: close` turns h11's keep-alive flag off when its head is sent -/
+theorem app_close_turns_keepalive_off (st : St) (status : Nat) (hdrs : Headers)
+    (hc : (respInfo status hdrs).connClose = true) (hok : Out.libSend (.response status hdrs) true ∈ (libSend st (.response status hdrs)).2.1) :
+    (libSend st (.response status hdrs)).1.lib.keepAlive = false := by
+  unfold libSend at hok ⊢
+  simp only [] at hok ⊢
+  split
+  · rename_i lib' hl
+    exact Proto.H11Close.sendResponse_close_off _ _ _ hc hl
+  · rename_i hl
+    rw [hl] at hok
+    simp at hok
+
 -- non-vacuity: a two-request pipeline in one read, the second parked until the first response completed
 example :
     let req : ReqEv := { method := "GET".b, target := "/a".b, headers := [("host".b, "x".b)], version := "1.1".b }
@@ -574,6 +739,33 @@ example :
       .sendHttp 0 (some (.start (some 200) (some []) false)), .sendHttp 0 (some (.body none false)),
       .ev (.request req)]
     ((runOps (next { keepAliveMax := 10 } (fun _ => []) none) {} ops).map (fun s => (s.cur, s.cycles, s.spawns))) = some (some 1, 1, 2) := by
+  decide
+
+-- non-vacuity: a REUSED connection whose second request goes wrong inside its chunked body: the flag left by the first
+-- request is down again, the error is answered (400 + close) and `Closed` is sent
+private def exGet : ReqEv := { method := "GET".b, target := "/a".b, headers := [("host".b, "x".b)], version := "1.1".b }
+private def exPost : ReqEv :=
+  { method := "POST".b, target := "/b".b, headers := [("host".b, "x".b), ("transfer-encoding".b, "chunked".b)], version := "1.1".b }
+private def exReused : Option St :=
+  runOps (next { keepAliveMax := 10 } (fun _ => []) none) {} [.begin, .ev (.request exGet), .ev .eom, .ev .paused,
+    .sendHttp 0 (some (.start (some 200) (some []) false)), .sendHttp 0 (some (.body none false)),
+    .ev (.request exPost), .ev (.data "ab".b)]
+set_option maxRecDepth 8000 in
+example : exReused.map (fun s => (s.cycles, decide (s.lib.client = .sendBody), decide (s.pc = .inLoop), s.requestComplete)) =
+    some (1, true, true, false) := by decide
+set_option maxRecDepth 8000 in
+example : (exReused.bind (fun s => onLibEv { keepAliveMax := 10 } s (.protoError 400))).map (fun r => (r.2.contains .upClosed,
+    r.2.contains (.libSend (.response 400 [("content-length".b, "0".b), ("connection".b, "close".b)]) true))) = some (true, true) := by decide
+
+-- non-vacuity: the application answers with its own `connection: close`: keep-alive goes off, the connection is not
+-- recycled (no cycle restart, `closed` set), and the pipelined request is never accepted
+set_option maxRecDepth 8000 in
+example :
+    let req : ReqEv := { method := "GET".b, target := "/a".b, headers := [("host".b, "x".b)], version := "1.1".b }
+    let ops : List Op := [.begin, .ev (.request req), .ev .eom, .ev .paused,
+      .sendHttp 0 (some (.start (some 200) (some [(.bytes "Connection".b, .bytes "close".b)]) false)), .sendHttp 0 (some (.body none false))]
+    ((runOps (next { keepAliveMax := 10 } (fun _ => []) none) {} ops).map (fun s => (s.lib.keepAlive, s.cycles, s.closed, s.cur,
+      (onLibEv { keepAliveMax := 10 } s (.request req)).isSome))) = some (false, 0, true, none, false) := by
   decide
 
 end HC.Props.C06
